@@ -163,8 +163,9 @@ enum Op {
     WUpdate(usize),
     WRemove(usize),
     WRemoveAll,
-    /// commit, with or without the automatic SOA serial bump
-    WCommit(bool),
+    /// commit, with or without the automatic SOA serial bump; then either drop the writer or open it again
+    /// straight away (the way ZoneUpdater goes from one batch of an incremental transfer to the next)
+    WCommit(bool, bool),
     WAbandon,
 }
 
@@ -203,9 +204,9 @@ fn history(c: &mut Ctx, rt: &tokio::runtime::Runtime, fam: &str, idx: u64) {
             12..=14 => Op::WUpdate(rng.below(NAMES.len())),
             15 | 16 => Op::WRemove(rng.below(NAMES.len())),
             17 => {
-                if rng.chance(1, 3) { Op::WRemoveAll } else { Op::WCommit(rng.bool()) }
+                if rng.chance(1, 3) { Op::WRemoveAll } else { Op::WCommit(rng.bool(), rng.chance(1, 3)) }
             }
-            18 => Op::WCommit(rng.bool()),
+            18 => Op::WCommit(rng.bool(), rng.chance(1, 3)),
             _ => Op::WAbandon,
         };
         let ex = |trace: &Vec<String>| json!({"ops": trace});
@@ -280,7 +281,7 @@ fn history(c: &mut Ctx, rt: &tokio::runtime::Runtime, fam: &str, idx: u64) {
                         trace.push("W remove_all".into());
                     }
                 }
-                Op::WCommit(bump) => {
+                Op::WCommit(bump, reuse) => {
                     if let Some((mut wz, node, mut work)) = writer.take() {
                         drop(node);
                         // the automatic bump: the old SOA with its serial increased, unless the writer supplied a new SOA
@@ -292,12 +293,21 @@ fn history(c: &mut Ctx, rt: &tokio::runtime::Runtime, fam: &str, idx: u64) {
                             }
                         }
                         rt.block_on(wz.commit(bump)).map_err(|e| ("writer:commit".to_string(), e.to_string()))?;
-                        drop(wz);
                         committed.push(work);
                         trace.push(format!("W commit(bump {}) -> version {}", bump, committed.len() - 1));
                         sig_events.push(3);
                         c.count("commits", 1);
                         check_invariants(&zone, Some((committed.len() - 1) as u32)).map_err(|e| ("invariant:after-commit".to_string(), e))?;
+                        if reuse {
+                            // the same writer goes on to the next version: nothing of it may show before its next commit
+                            let node = rt.block_on(wz.open(!bump)).map_err(|e| ("writer:open-failed".to_string(), e.to_string()))?;
+                            writer = Some((wz, node, committed.last().unwrap().clone()));
+                            trace.push("W open again (same writer)".into());
+                            sig_events.push(5);
+                            c.count("writers_reopened_after_commit", 1);
+                        } else {
+                            drop(wz);
+                        }
                     }
                 }
                 Op::WAbandon => {
@@ -602,6 +612,7 @@ pub fn run(c: &mut Ctx) {
         c.floor("reader_queries_while_zone_moved_on", 100);
         c.floor("abandoned_writers", 100);
         c.floor("commits", 100);
+        c.floor("writers_reopened_after_commit", 100);
         c.floor("stress_overlap_windows", 10);
         c.floor("stress_abandons", 10);
         c.floor("stress_commits", 10);
